@@ -215,6 +215,7 @@ func (e *Engine) Run(t *core.Tape, cfg *core.Config, st *core.Stats) *core.Viola
 		r := exec(proto, o, true, hostapi.VCancel, k, k+int64(2*(300+1))+64)
 		st.Evals++
 		st.Steps += r.h.Steps
+		st.D(model.HashTrace(r.h.Trace, r.out.TopError) ^ uint64(r.h.StepsAfter))
 		if !r.h.Fired {
 			return nil
 		}
